@@ -75,6 +75,27 @@ sys.exit(1 if failed or build_fail else 0)
 EOF
 SUMMARY=$?
 
+# ---- query sweep: every sqlc-generated query method on every definition ----
+SWEEP="$GEN/sweep"
+mkdir -p "$SWEEP"
+cp "$PGX/minipg/testdata/sweep/sweep_test.go" "$SWEEP/sweep_test.go"
+{
+    echo "module sweep"
+    grep -v '^module ' "$REPO/go.mod"
+    echo "require github.com/shutter-network/rolling-shutter/rolling-shutter v0.0.0"
+    echo "replace github.com/shutter-network/rolling-shutter/rolling-shutter => $REPO"
+    echo "replace github.com/jackc/pgx/v4 => $PGX"
+} > "$SWEEP/go.mod"
+cp "$REPO/go.sum" "$SWEEP/go.sum"
+(cd "$SWEEP" && go test -vet=off -count=1 -v "$@" . > "$GEN/sweep.out" 2>&1)
+SWEEP_STATUS=$?
+if [ $SWEEP_STATUS -eq 0 ]; then
+    echo "SWEEP ok (definitions=$(grep -c 'query calls' "$GEN/sweep.out" || true) $(grep -o '[0-9]* query calls' "$GEN/sweep.out" | awk '{n+=$1} END {print "query_calls=" n}'))"
+else
+    echo "SWEEP FAILED (output: $GEN/sweep.out)"
+    tail -40 "$GEN/sweep.out"
+fi
+
 REPO_STATUS_AFTER="$(git -C /repo status --porcelain)"
 if [ "$REPO_STATUS_BEFORE" != "$REPO_STATUS_AFTER" ]; then
     echo "ERROR: the run modified /repo (git status before/after differ):" >&2
@@ -82,7 +103,7 @@ if [ "$REPO_STATUS_BEFORE" != "$REPO_STATUS_AFTER" ]; then
     echo "--- after" >&2; echo "$REPO_STATUS_AFTER" >&2
     exit 3
 fi
-if [ $SUMMARY -ne 0 ] || [ $STATUS -ne 0 ]; then
+if [ $SUMMARY -ne 0 ] || [ $STATUS -ne 0 ] || [ $SWEEP_STATUS -ne 0 ]; then
     echo "go test exit status: $STATUS (json: $OUT, stderr: $GEN/test.stderr)" >&2
     exit 1
 fi
